@@ -361,7 +361,7 @@ class Interp:
     def _unary_fn(name):
         def h(self, eqn, a):
             if self.ctx.numeric:
-                return _v1(lambda x: _num_fn(name, x))(a)
+                return _v1(lambda x: _num_fn(name, x) if V.is_conc(x) else s_fn(name, x))(a)
             return _v1(lambda x: s_fn(name, x))(a)
         return h
 
